@@ -76,3 +76,61 @@ Theorem tokens_read_as_items its : flags_only its -> flags_parse (flat_map rende
 Proof.
   intros H. unfold flags_parse, expected_of_items. rewrite parse_tokens_items; auto.
 Qed.
+
+(* ---------- the same for lines with stray words and the "--" terminator ---------- *)
+(* a stray word is any token that is not of the form "-x…" *)
+Definition stray_ok (w : str) : Prop := match w with "-"%char :: _ :: _ => False | _ => True end.
+Definition items_ok (its : list fitem) : Prop :=
+  Forall (fun it => match it with FFlag n _ => In n flag_names | FDel => True | FStray w => stray_ok w | FTerm => True end) its.
+
+Lemma parse_tokens_all_items : forall its p fuel, items_ok its -> (List.length (flat_map render_item its) < fuel)%nat ->
+  parse_tokens fuel p (flat_map render_item its) = apply_items p its.
+Proof.
+  induction its as [|it its IH]; intros p fuel Hf Hl; cbn [flat_map apply_items].
+  - destruct fuel; [cbn in Hl; lia|]. reflexivity.
+  - inversion Hf as [|? ? Hit Hrest]; subst. destruct it as [n v| |w|].
+    + cbn [flat_map render_item app List.length] in Hl. cbn [render_item app]. destruct fuel as [|fuel]; [lia|].
+      assert (Hl' : (List.length (flat_map render_item its) < fuel)%nat) by lia.
+      cbn in Hit.
+      destruct Hit as [<-|[<-|[<-|[<-|[<-|[<-|[<-|[<-|[]]]]]]]]]; cbn -[set_flag apply_items flat_map];
+        (destruct (set_flag p _ v) as [p'|]; [apply IH; auto | reflexivity]).
+    + cbn [flat_map render_item app List.length] in Hl. cbn [render_item app]. destruct fuel as [|fuel]; [lia|].
+      cbn -[apply_items flat_map]. apply IH; auto. lia.
+    + (* a stray word: the flag package stops there; the line is rejected *)
+      cbn [render_item app]. destruct fuel as [|fuel]; [cbn in Hl; lia|]. cbn [parse_tokens].
+      cbn in Hit. destruct w as [|c [|c2 r]]; try reflexivity.
+      * destruct (Ascii.eqb c "-"%char) eqn:E. apply Ascii.eqb_eq in E. subst c. reflexivity.
+        destruct c as [[] [] [] [] [] [] [] []]; try reflexivity; discriminate E.
+      * destruct c as [[] [] [] [] [] [] [] []]; try reflexivity; contradiction.
+    + (* "--": nothing may follow *)
+      cbn [render_item app]. destruct fuel as [|fuel]; [cbn in Hl; lia|].
+      destruct its as [|it2 its2]; [reflexivity|].
+      cbn -[flat_map]. destruct (flat_map render_item (it2 :: its2)) eqn:E; [|reflexivity].
+      exfalso. destruct it2; cbn in E; discriminate.
+Qed.
+
+Theorem tokens_read_as_all_items its : items_ok its -> flags_parse (flat_map render_item its) = expected_of_items its.
+Proof. intros H. unfold flags_parse, expected_of_items. rewrite parse_tokens_all_items; auto. Qed.
+
+(* hence the parser itself rejects a line with a stray word anywhere, and anything after "--" *)
+Theorem parser_rejects_stray a w b : items_ok (a ++ FStray w :: b) -> flags_parse (flat_map render_item (a ++ FStray w :: b)) = None.
+Proof.
+  intros H. rewrite tokens_read_as_all_items by exact H. unfold expected_of_items.
+  assert (G: forall p, apply_items p (a ++ FStray w :: b) = None).
+  { clear H. induction a as [|it a IH]; intros p; cbn [app apply_items]; auto.
+    destruct it as [n v| |w'|]; auto.
+    - destruct (set_flag p n v); auto.
+    - destruct (a ++ FStray w :: b) eqn:E; auto. destruct a; discriminate. }
+  rewrite G. reflexivity.
+Qed.
+Theorem parser_rejects_after_terminator a x b : items_ok (a ++ FTerm :: x :: b) -> flags_parse (flat_map render_item (a ++ FTerm :: x :: b)) = None.
+Proof.
+  intros H. rewrite tokens_read_as_all_items by exact H. unfold expected_of_items.
+  assert (G: forall p, apply_items p (a ++ FTerm :: x :: b) = None).
+  { clear H. induction a as [|it a IH]; intros p; cbn [app apply_items]; auto.
+    destruct it as [n v| |w'|]; auto.
+    - destruct (set_flag p n v); auto.
+    - destruct (a ++ FTerm :: x :: b) eqn:E; auto. destruct a; discriminate. }
+  rewrite G. reflexivity.
+Qed.
+Print Assumptions parser_rejects_stray.
